@@ -26,7 +26,7 @@ func init() {
 		Assumptions: []string{"lock held at both accesses implies no data race", "sync.Pool hands an object to one borrower at a time", trustDeps},
 	}
 	Properties["C08"] = PropSpec{
-		Rules:       []Rule{Stateless, Slots},
+		Rules:       []Rule{Stateless, Slots, MapOrder("(*SchemaValidator).Validate", "(*ParamValidator).Validate", "(*HeaderValidator).Validate")},
 		Explanation: "STATELESS effect analysis over every function: each store into a field (or element of an array/slice/map held in a field) of the 13 validator types outside their constructors, and each call of a receiver-mutating method (summaries computed, interface dispatch resolved by method name over the implementations), is (i) guarded by the recycle option (directly or because the enclosing function is recycle-only, greatest fixpoint over call sites), (ii) applied to an object constructed in the same activation, or (iii) applied to an ephemeral type whose every instance is created, run once and dropped. SLOT-INIT: children are built only in the parent's constructor from distinct constructor calls; SLOT-ONESHOT: per-element validators are fresh.",
 		NotDecided:  "Determinism of dependencies; lazy spec.ExpandSchema on sub-schemas that still contain $ref; equality of message sets across repetitions (behavioural).",
 		Assumptions: []string{"validator state = fields of the validator types; caller-supplied registries are outside", trustDeps},
@@ -185,14 +185,14 @@ func init() {
 
 func init() {
 	Properties["C16"] = PropSpec{
-		Rules: []Rule{Chain, Keywords("ParamValidator", simpleKeywords, "param_ctor_calls"), Keywords("HeaderValidator", simpleKeywords, "header_ctor_calls"), Keywords("itemsValidator", simpleKeywords, "items_ctor_calls"), KeywordGuard,
+		Rules: []Rule{Chain, EnumConvert, Keywords("ParamValidator", simpleKeywords, "param_ctor_calls"), Keywords("HeaderValidator", simpleKeywords, "header_ctor_calls"), Keywords("itemsValidator", simpleKeywords, "items_ctor_calls"), KeywordGuard,
 			Narrow},
 		Explanation: "(being extended) CHAIN, KEYWORDS(simple), APPLIES-SOURCE, KEYWORD-GUARD, NARROW.",
 		NotDecided:  "Per-keyword predicates; the type inference table of schemaInfoForType.",
 		Assumptions: []string{trustDeps},
 	}
 	Properties["C01"] = PropSpec{
-		Rules:       []Rule{Keywords("SchemaValidator", schemaKeywords, "schema_ctor_calls"), NilPath, KeywordGuard, KConsistent, PoolCtor},
+		Rules:       []Rule{Keywords("SchemaValidator", schemaKeywords, "schema_ctor_calls"), NilPath, KeywordGuard, EnumConvert, KConsistent, PoolCtor, MapOrder("(*SchemaValidator).Validate", "AgainstSchema")},
 		Explanation: "(being extended) KEYWORDS, NILPATH, KEYWORD-GUARD, K-CONSISTENT, POOL-CTOR.",
 		NotDecided:  "Whether each keyword's predicate agrees with draft 4.",
 		Assumptions: []string{trustDeps},
